@@ -316,7 +316,7 @@ pub fn run(tier: Tier, seed: u64) -> i32 {
         ev.floor(&format!("boundary sizes reached for the {name} collection"), ev.set_len(&format!("boundary_counts.{name}")) as u64, 12);
     }
     ev.floor("accepted edited descriptions", ev.bucket_get("accepted_edited_description"), 10);
-    ev.floor("hostile classes", ev.set_len("hostile_classes") as u64, 14);
+    ev.floor("hostile classes", ev.set_len("hostile_classes") as u64, 20);
     ev.floor("hostile rejected", ev.bucket_get("hostile.err"), tier.pick(100, 200));
     ev.finish()
 }
@@ -405,6 +405,58 @@ fn hostile(ev: &Ev, tier: Tier, seed: u64) {
                 c.scalars[i] = [0xff; 32]
             }
         });
+        // value classes of non-canonical scalars: a referenced entry spelled as
+        // value + r (fits 255 bits: bit 255 clear), r itself (alias of zero),
+        // 2^255 - 1; and the same as an extra entry no polynomial refers to
+        let plus_r = |b: &[u8; 32]| -> [u8; 32] {
+            // little-endian addition of the field modulus
+            const R: [u64; 4] = [0xffff_ffff_0000_0001, 0x53bd_a402_fffe_5bfe, 0x3339_d808_09a1_d805, 0x73ed_a753_299d_7d48];
+            let mut out = [0u8; 32];
+            let mut carry = 0u128;
+            for i in 0..4 {
+                let x = u64::from_le_bytes(b[8 * i..8 * i + 8].try_into().unwrap()) as u128 + R[i] as u128 + carry;
+                out[8 * i..8 * i + 8].copy_from_slice(&(x as u64).to_le_bytes());
+                carry = x >> 64;
+            }
+            out
+        };
+        let r_bytes = plus_r(&[0u8; 32]);
+        let mut near = [0xffu8; 32];
+        near[31] = 0x7f;
+        e("scalar-referenced-spelled-value+r", &|c, r| {
+            if c.scalars.is_empty() {
+                c.scalars.push(r_bytes);
+            } else {
+                // pick an entry small enough for value + r to stay below 2^256
+                let i = r.next_u32() as usize % c.scalars.len();
+                let mut v = c.scalars[i];
+                v[31] &= 0x07;
+                c.scalars[i] = plus_r(&v);
+            }
+        });
+        e("scalar-referenced-spelled-r", &|c, r| {
+            if c.scalars.is_empty() {
+                c.scalars.push(r_bytes);
+            } else {
+                let i = r.next_u32() as usize % c.scalars.len();
+                c.scalars[i] = r_bytes;
+            }
+        });
+        e("scalar-referenced-2^255-1", &|c, r| {
+            if c.scalars.is_empty() {
+                c.scalars.push(near);
+            } else {
+                let i = r.next_u32() as usize % c.scalars.len();
+                c.scalars[i] = near;
+            }
+        });
+        e("scalar-unreferenced-extra-entry-all-ff", &|c, _| c.scalars.push([0xff; 32]));
+        e("scalar-unreferenced-extra-entry-r", &|c, _| c.scalars.push(r_bytes));
+        e("scalar-unreferenced-extra-entry-small+r", &|c, _| {
+            let mut v = [0u8; 32];
+            v[0] = 5;
+            c.scalars.push(plus_r(&v))
+        });
         e("witnesses-zero", &|c, _| c.witnesses = 0);
         e("hades-flag-flipped", &|c, _| c.hades = !c.hades);
         e("extra-polynomials-beyond-capacity", &|c, _| {
@@ -484,6 +536,10 @@ fn hostile(ev: &Ev, tier: Tier, seed: u64) {
                     ev.set_insert("hostile_accepted_classes", &class);
                     if *n > m {
                         ev.violation("C15:description-beyond-capacity-accepted", json!({"case": desc}));
+                    }
+                    if name.starts_with("scalar-not-canonical") || name.starts_with("scalar-referenced-") || name.starts_with("scalar-unreferenced-extra-entry") {
+                        // a non-canonical field element anywhere in the description is out-of-range data
+                        ev.violation(&format!("C15:out-of-range-data-accepted:{class}"), json!({"case": desc}));
                     }
                     if name == "trailing-bytes-inside-stream" || name == "trailing-bytes-after-stream" {
                         ev.violation(&format!("C15:trailing-data-accepted:{name}"), json!({"case": desc}));
